@@ -40,7 +40,7 @@ EncTail == 8               \* "10=xxx" SOH and the terminating NUL
 Caps(i) == IF i = 1 THEN <<TagCapHdr, FldCap>> ELSE IF i \in {2, 3} THEN <<TagCapHdr, TagCapHdr>> ELSE <<FldCap, FldCap>>
 
 Nominal == [tl |-> 2, vl |-> 3, eq |-> TRUE, soh |-> TRUE]
-Shapes == [tl : Lens, vl : Lens, eq : BOOLEAN, soh : BOOLEAN] \cup {Nominal}
+Shapes == [tl : Lens, vl : {3}, eq : BOOLEAN, soh : BOOLEAN] \cup [tl : {2}, vl : Lens, eq : BOOLEAN, soh : BOOLEAN] \cup {Nominal}
 Odd(sh) == sh # Nominal
 
 \* bytes written into a buffer of capacity cap when n bytes are to be copied followed by a NUL
